@@ -33,8 +33,22 @@ sizes:     (notes/SIZE_STRESS.md) the abstract cases stay small; every 8th (quic
            for the small value, length-independent by the size lemmas of Deb822Value
            (StretchInvariant, RepeatInvariant).  TLC scans only short strings (traces: values <= 40,
            field names <= 65 characters).
+ways:      an accepted value's dump is read back with Deb822.iter_paragraphs (str / StringIO / BytesIO,
+           both settings) AND through the ways the producing class itself offers -- Cls(x, strict) and
+           Cls.iter_paragraphs(x, strict) for x = str / bytes / text.splitlines(True) / StringIO /
+           BytesIO, strict by keyword and positionally -- for Deb822, Dsc, Changes, BuildInfo,
+           Release, PdiffIndex (rotating: two ways per replay, one per trace event, two per walk
+           read-back).  The model has the same dimension (Ways: plain classes vs. the gpg-aware ones
+           with their pre-pass), checked up to GpgLen.  Positional strict on a gpg-aware class built
+           from a list / file was a genuine defect this check found (repaired in /repo 2236619).
+characters: (SIZE_STRESS part 2) payload pools contain non-NFC text next to its precomposed twin,
+           case-mapping hazards, U+FEFF / ZWJ / ZWNJ / ZWSP / soft hyphen / bidi marks, non-BMP and
+           U+10FFFF; U+0400..U+043F (every UTF-8 trailing byte) rotate through the end of payload
+           runs; field names that only a normalising reader confuses sit side by side; values with one
+           boundary style throughout (CRLF / CR / LF), tab-only and mixed indentation, trailing tabs.
 negative controls run in every check: NoIndentRule, AllowEndLF, ValidateLFOnly, ReaderNoWsRule must
-make TLC report Sound violated, MemoMode = "value" / "keyvalue" and RejectStoresEmpty HistoryFree;
+and StrictDroppedInGpgClasses, PosStrictMissedByPrepass must make TLC report Sound violated,
+MemoMode = "value" / "keyvalue" and RejectStoresEmpty HistoryFree;
 corrupted control traces must be rejected, a literal good one accepted.
 """
 import io
@@ -49,7 +63,7 @@ import core
 
 MANIFEST = dict(
     technique="TLA+ spec over code points (Deb822Value: statement layer + transcription of validate_input, _dump_format and the iter_paragraphs reader for str and file input with both whitespace settings; Deb822ValueHist: history-free assignment over several live paragraphs with a process-wide memo as implementation-layer negative control) model-checked by TLC; bounded-exhaustive CASE lines and walks through the closed history LTS replayed into Deb822/Dsc/Changes/Release/BuildInfo/PdiffIndex with size-stressed concretizations; recorded multi-object assignment histories validated by TLC (TraceDeb822Value)",
-    text="TLC enumerates every value up to length 5 (quick) / 6 (thorough) over the seven symbols x : # space tab CR LF, assigns it to the first, middle and last field of a three-field paragraph and checks on the transcription of the code that an accepted value, dumped and read back by the character-level model of iter_paragraphs (str.splitlines for str input, LF-terminated lines for file input), gives exactly one paragraph with the same field names when whitespace-only lines do not separate paragraphs, and under the default setting too when no continuation line is blank (Sound); that the three defects named by the statement imply rejection and that the validator's scanner equals the declarative characterisation (RejectComplete, RejectExact); that rejection leaves the paragraph unchanged; that the classification is independent of the length of payload runs and of the number of repetitions of a continuation line (size lemmas). A second module makes the assignment a history over three live paragraphs of two kinds of class (Files validated / Files multivalued and unvalidated) plus multivalued-key assignments to throw-away objects: the reference verdict is history-free, the closed state space is explored and memoising by value, by (key, value) or leaving an empty field behind after a rejection are shown to break it. Every CASE line is replayed into the real classes (all three positions for what is accepted, several concretizations of x, d[k]=v and update(), every 8th/6th case size-stressed: payload runs up to 64 KiB, the first special character at offset 4095/4096/4097, 100/1000 continuation lines, field names up to 1024 characters, paragraphs of up to 1000 fields), walks through the history LTS are replayed on three live objects with outcome, all paragraphs and the read-back verdicts checked after every step, and assignment histories recorded from two live objects of five classes (values up to 40 characters re-used across keys, objects and classes, repeated after rejections, new keys, multivalued-key assignments in between) are validated by TLC on the concrete code points.",
+    text="TLC enumerates every value up to length 5 (quick) / 6 (thorough) over the seven symbols x : # space tab CR LF, assigns it to the first, middle and last field of a three-field paragraph and checks on the transcription of the code that an accepted value, dumped and read back by the character-level model of iter_paragraphs (str.splitlines for str input, LF-terminated lines for file input), gives exactly one paragraph with the same field names when whitespace-only lines do not separate paragraphs, and under the default setting too when no continuation line is blank (Sound); that the three defects named by the statement imply rejection and that the validator's scanner equals the declarative characterisation (RejectComplete, RejectExact); that rejection leaves the paragraph unchanged; that the classification is independent of the length of payload runs and of the number of repetitions of a continuation line (size lemmas). A second module makes the assignment a history over three live paragraphs of two kinds of class (Files validated / Files multivalued and unvalidated) plus multivalued-key assignments to throw-away objects: the reference verdict is history-free, the closed state space is explored and memoising by value, by (key, value) or leaving an empty field behind after a rejection are shown to break it. The read-back operator has the class / constructor dimension (plain classes vs. the gpg-aware Dsc / Changes / BuildInfo whose constructor cuts the paragraph out in a pre-pass; constructor vs. iter_paragraphs; str vs. line input; strict reaching the pre-pass and the field parser), with negative controls for a strict that is dropped before the field parser and for a positional strict the pre-pass does not see (a genuine defect found by this check, repaired in /repo 2236619). Every CASE line is replayed into the real classes (Deb822, Dsc, Changes, BuildInfo, Release, PdiffIndex; the dump is read back with Deb822.iter_paragraphs and through the producing class's own constructor / iter_paragraphs from str, bytes, list, StringIO, BytesIO with strict by keyword and positionally; all three positions for what is accepted, several concretizations of x, d[k]=v and update(), every 8th/6th case size-stressed: payload runs up to 64 KiB, the first special character at offset 4095/4096/4097, 100/1000 continuation lines, field names up to 1024 characters, paragraphs of up to 1000 fields), walks through the history LTS are replayed on three live objects with outcome, all paragraphs and the read-back verdicts checked after every step, and assignment histories recorded from two live objects of five classes (values up to 40 characters re-used across keys, objects and classes, repeated after rejections, new keys, multivalued-key assignments in between) are validated by TLC on the concrete code points.",
     note="Small scope: values <= 6 symbols exhaustively, longer ones sampled; the history model has 3 objects x 3 keys x 3 values (closed). Sizes beyond ~40 characters are never scanned by TLC: they are concretizations of small abstract cases whose expectation is length-independent (size lemmas checked by TLC for one duplication step up to the bound -- evidence, not proof, for longer runs). Unspecified (executed, never judged on acceptance): 'zone' = a lone CR followed by something that is not indentation (rejected today), 'blank' = a whitespace-only continuation line (accepted today), any assignment to a multivalued key of its class (not validated today); whatever is accepted on a validated key must still read back as one paragraph with the same keys. Default-setting read-back is judged only when no value of the paragraph has a blank continuation line. Characters outside the property's domain (NBSP, VT, FF, U+0085, U+2028, other Unicode whitespace) are never generated. Trusted: TLC, the projections (list(d.items()), key lists of the paragraphs read back), the concretizer. Spec-level negative controls and corrupted control traces are run in every check.",
     design="5 (C08)")
 
